@@ -4,23 +4,30 @@ One module per unit (harness/props/c19_<unit>.py); each runs the real strax func
 Gallina model on the same inputs and evaluates the property predicate (the spec side of the theorem,
 written independently in Python) on the implementation's output.
 """
-from harness.props import c19_fp, c19_merge, c19_sma
+import os
+import sys
+import time
+
+from harness.props import c19_fp, c19_iof, c19_merge, c19_sma
 
 MODEL_PROPS = ["C19"]
 LEVEL = "proof"
 
-UNITS = [c19_sma, c19_fp, c19_merge.RM, c19_merge.MP]
+UNITS = [c19_sma, c19_fp, c19_merge.RM, c19_merge.MP, c19_iof]
 
 
 def run(ctx):
-    ctx.coverage["rule"] = " | ".join(m.RULE for m in UNITS)
+    units = UNITS
+    only = os.environ.get("C19_UNITS")      # development aid: run a subset of the units
+    if only:
+        units = [m for m in UNITS if m.NAME in only.split(",")]
+        ctx.notes.append("C19_UNITS=%s: only a subset of the units was run" % only)
+    ctx.coverage["rule"] = " | ".join(m.RULE for m in units)
     ctx.assumptions.append("float results are compared on the exactly representable domain only (small integer "
                            "samples and areas, integer gains): sums must be bit-exact; where a helper divides the "
                            "model returns the exact fraction and the implementation must return the correctly "
                            "rounded value of that fraction (stated per unit)")
-    import sys
-    import time
-    for m in UNITS:
+    for m in units:
         t0 = time.time()
         m.unit(ctx)
         sys.stderr.write("C19 unit %s: %.1fs\n" % (m.NAME, time.time() - t0))
